@@ -406,6 +406,29 @@ pub fn gen_build(run: &mut Run, seed: u64, thorough: bool) {
                 }
             }
         }
+        // known finding (C10): P-256 private keys outside [1, n-1] panic in Dh::set (derive_pubkey().unwrap())
+        if *p == "NN" {
+            for (what, key) in [("all-zero", vec![0u8; 32]), ("all-0xff", vec![0xffu8; 32])] {
+                let spec = BuildSpec {
+                    name: "Noise_NN_P256_ChaChaPoly_SHA256".into(),
+                    initiator: true,
+                    resolver: "default".into(),
+                    s: Some(key),
+                    e: None,
+                    rs: None,
+                    psks: vec![],
+                    prologue: None,
+                    rng: vec![1u8; 64],
+                };
+                let o = sc.ex.build(sid, &spec);
+                if o == Out::Panic {
+                    sc.viol("C10", format!("panic in Builder::build_initiator with use-p256 and a local private key that is not a valid P-256 scalar ({what})"));
+                } else if o.is_ok() {
+                    sc.ex.drop_session(sid);
+                }
+                sid += 1;
+            }
+        }
         // resolver availability
         for res in ["toy-norng", "toy-nodh", "toy-nocipher", "toy-nohash", "none", "fb(none,toy)", "fb(toy-nodh,toy-nohash)", "fb(toy-nodh,toy-nodh)"] {
             let name = format!("Noise_{p}_25519_AESGCM_SHA512");
